@@ -371,8 +371,10 @@ def stabilize (cfg : Cfg) (s : State) : State :=
   let s2 := drainPin cfg (s1.pinQ.length + 1) s1
   drainUnpin (s2.unpinQ.length + 1) s2
 
-/-- the oldest live call for cid `c` -/
-def liveCallFor (s : State) (c : Nat) : Option Nat :=
-  (s.calls.find? (fun k => alive s k && (s.ops k.op).cid == c)).map (·.op)
+/-- the oldest live call for cid `c` (of the given kind, if one is asked for). The unchanged tracker never has
+    two live calls for one cid (invariant `callCur`), so the kind only matters for code that breaks it. -/
+def liveCallFor (s : State) (c : Nat) (sel : Option CallKind := none) : Option Nat :=
+  (s.calls.find? (fun k => alive s k && (s.ops k.op).cid == c &&
+    (match sel with | none => true | some kd => k.kind == kd))).map (·.op)
 
 end CV.C05
